@@ -91,6 +91,10 @@ def generate(seed, batch):
                 'Nxy': rng.choice([0.0, 0.0, 0.5, -3.0]),
                 'loadmult': 10 ** rng.uniform(0, 5),
             }
+            # a second analysis on the same object after its edge flags were re-defined
+            scen['redefine_flags'] = ({f: float(rng.choice([0, 1])) for f in rng.sample(
+                ['u1tx', 'u2tx', 'v1tx', 'v2tx', 'w1tx', 'w1rx', 'w2tx', 'w2rx', 'u1ty', 'u2ty', 'v1ty', 'v2ty', 'w1ty', 'w1ry', 'w2ty', 'w2ry'],
+                rng.randint(1, 4))} if rng.random() < 0.35 else None)
         else:
             scen['impl'] = 'conecyl'
             scen['model'] = {
@@ -117,7 +121,7 @@ def shrink_candidates(scen):
             c = copy.deepcopy(scen)
             del c['faults'][i]
             yield c
-    for key, val in (('scale_s', None), ('cross_path', False)):
+    for key, val in (('scale_s', None), ('cross_path', False), ('redefine_flags', None)):
         if scen.get(key) not in (val,):
             c = copy.deepcopy(scen)
             c[key] = val
@@ -455,6 +459,37 @@ def execute(scen):
                     ref_s = {'mu': mu * s, 'lam': lam / s, 'lam_pos': lam_pos / s, 'subcritical': True, 'lmin': ref['lmin']}
                     check_result(scen, Kd, Gd * s, active, vals3, vecs3, pos, k, sparse, ref_s, log, res, tag='(scaled-load)')
                     bump(res['probes'], 'E5_checked')
+        # ---- re-definition: the same Panel object analysed again after its edge flags changed must give the
+        #      eigenpairs of the new matrices (nothing cached from the first analysis may survive)
+        rf = scen.get('redefine_flags')
+        if rf and outcome == 'returned' and scen['src'] == 'model' and scen['model']['kind'] == 'panel' and scen['impl'] == 'panel':
+            seam.faults = {}
+            scen2 = dict(scen)
+            scen2['model'] = dict(scen['model'])
+            scen2['model']['flags'] = dict(scen['model']['flags'])
+            scen2['model']['flags'].update(rf)
+            fresh = build_model_matrices(scen2)
+            Kd2 = fresh.calc_k0(silent=True).toarray()
+            Gd2 = fresh.calc_kG0(silent=True).toarray()
+            act2 = np.where(np.abs(Kd2).sum(axis=0) != 0)[0]
+            if len(act2) >= 3 and eig.is_pd(Kd2[np.ix_(act2, act2)]) and \
+                    not np.any(np.abs(Gd2).sum(axis=0)[np.setdiff1d(np.arange(Kd2.shape[0]), act2)] != 0):
+                for f, v in rf.items():
+                    setattr(obj, f, v)
+                mu2, lam2 = eig.ref_lb(Kd2, Gd2, act2)
+                sc2 = np.abs(mu2).max()
+                nsd2 = mu2.max() <= 1e-10 * sc2
+                pos2 = np.sort(-1.0 / mu2[mu2 < -1e-9 * sc2])
+                ref2 = {'mu': mu2, 'lam': lam2, 'lam_pos': pos2, 'subcritical': bool(nsd2 and len(pos2) and pos2.min() > 1.0),
+                        'lmin': float(np.linalg.eigvalsh(Kd2[np.ix_(act2, act2)]).min())}
+                try:
+                    obj.num_eigvalues = k
+                    obj.lb(tol=0, sparse_solver=sparse, silent=True)
+                except Exception as e:
+                    bump(res['exceptions'], 'redefined_' + type(e).__name__)
+                else:
+                    check_result(scen, Kd2, Gd2, act2, obj.eigvals, obj.eigvecs, 0, k, sparse, ref2, log, res, tag='(after-redefinition)')
+                    bump(res['probes'], 'redefinition_checked')
         # ---- classification
         injected = sorted(set(f['kind'] for f in scen.get('faults', []) if f['call'] <= ncalls))
         path = 'dense' if not sparse else ('direct' if ncalls == 1 else 'fallback%d' % ncalls)
